@@ -79,6 +79,7 @@ def plan(tier, seed):
     units += [("hex", case) for case in ("lower", "upper", "mixed")]
     units += [("xor", c) for c in range(3)] + [("xorguess",)] + [("psbytes", i) for i in range(4)]
     units += [("stream", u) for u in streams.plan(tier, fams=STREAM_FAMS)]
+    units += core.interp_axis([("bounds",), ("late",), ("hex", "mixed"), ("xorguess",), ("psbytes", 0)])
     return units
 
 
